@@ -14,10 +14,10 @@ import time
 import zipfile
 
 from harness.common import Ck, coq_list, coq_str, coq_bytes, parse_coq_N_list
-from translate import c19_walk
+from translate import c19_walk, c19_state
 
 MANIFEST = dict(
-    technique='Rocq proof (backends as translated operation lists refining one folded-name map for every query string; walk_folder exactness for the sound folder forms; RawFileSystem lookup/walk from its translated operations; chain first-match / priority / prefix / de-duplication laws; every public lookup form of a chain - [], in, _get_file, _file_exists, open_bin, open_str, the bytes read, walk_folder, iter - equal to one specification function for members of any backend kind; the VPK content expression and the container reader FileInfo.read() as translated expressions that return the stored bytes in every placement) + fail-closed ast translator working on a canonical form of filesys.py / vpk.py (semantic normalisation, 15 rewrite rules, the rewritten module is executed and compared with the real one on every run) ; round 4: the property as one statement (c19_property: source_ok cfg -> property_holds cfg, instantiated at the generated configuration on every run), add_sys over whole histories of calls with its early-return guard translated, the names RawFileSystem.walk_folder lists as a translated shape, the walk of chains with directory members from a member interface, subfolder prefixes and folder arguments in any spelling without "..") + instance obligations and two groups of instance theorems at the generated configuration + vm_compute correspondence over the four real backends and chains + differential oracle (every call into the implementation under an alarm: a hang or an unexpected exception is a violation with its input)',
+    technique='Rocq proof (backends as translated operation lists refining one folded-name map for every query string; walk_folder exactness for the sound folder forms; RawFileSystem lookup/walk from its translated operations; chain first-match / priority / prefix / de-duplication laws; every public lookup form of a chain - [], in, _get_file, _file_exists, open_bin, open_str, the bytes read, walk_folder, iter - equal to one specification function for members of any backend kind; the VPK content expression and the container reader FileInfo.read() as translated expressions that return the stored bytes in every placement) + fail-closed ast translator working on a canonical form of filesys.py / vpk.py (semantic normalisation, 15 rewrite rules, the rewritten module is executed and compared with the real one on every run) ; round 4: the property as one statement (c19_property: source_ok cfg -> property_holds cfg, instantiated at the generated configuration on every run), add_sys over whole histories of calls with its early-return guard translated, the names RawFileSystem.walk_folder lists as a translated shape, the walk of chains with directory members from a member interface, subfolder prefixes and folder arguments in any spelling without "..") + instance obligations and two groups of instance theorems at the generated configuration + vm_compute correspondence over the four real backends and chains + differential oracle (every call into the implementation under an alarm: a hang or an unexpected exception is a violation with its input); round 5: a census of stores (translate/c19_state.py: every store a walk / lookup method of filesys.py or the reading side of vpk.py makes into self, a class, a module-level object or a mutable default, and where it stands relative to the yields of a generator - produced and judged also when the shape translator fails closed) with a model of walk generators consumed completely or given up after k items and of chain lookups between edits of `systems` (SM/FsState.v), c19_property_over_histories, and history oracles (abandoned / interleaved / failing walks followed by complete walks on every backend and on chains, failed lookups repeated, direct edits of chain.systems after lookups)',
     text='Theorems in Props/C19.v, generic over a backend record of normalisation operations regenerated from filesys.py on every run. '
          'Lookup: backends whose query functions convert the slashes, normalise the path and fold the case (today\'s source, obligation *_keys_normalise_every_spelling) agree with each other and with the specification map (folded name -> last stored file) on _get_file, _file_exists and open_bin for EVERY query string; empty and "." segments, either slash and letter case are proved insignificant (c19_normpath_noise, c19_lookup_noise_insensitive); any other recognised form agrees on queries normpath leaves alone (c19_lookup_agree); the pinned forms are refuted on "./x" and ".\\x". '
          'Bytes: what VPKFileSystem.open_bin/open_str read is a translated expression over the FileInfo, and FileInfo.read() itself is translated from vpk.py with the slice displacements found in the source; expressions recognised as whole return the stored bytes for every split between preload and rest, for the directory tail, a numbered archive and a single-file VPK, wherever the rest lies (c19_vpk_content_whole_all_placements, c19_vpk_open_same_bytes, c19_vpk_reader_whole_all_placements, c19_vpk_open_through_reader); the preload shortcut and the one-byte-short slice are refuted. '
@@ -26,8 +26,9 @@ MANIFEST = dict(
          'FileSystemChain: c19_chain_every_form_spec - for every query string and every list of members of whatever backend kind (no premise on the prefixes) chain[q] / _get_file(q), the resolution of open_bin / open_str(q), q in chain / _file_exists(q) in every recognised sound shape and the bytes read from the handle are the specification function chain_spec (first member, in priority order, whose files contain subfolder/name up to case, slash kind and redundant segments); hence the backend kind of a member is unobservable through a chain (c19_chain_backend_kind_unobservable); chains that also contain directory backends answer like chain_spec on queries that are exact for those members (c19_chain_with_directory_members_spec, premise shown necessary); a _file_exists loop that re-assigns the joined name is refuted (c19_chain_exists_carried_name_refuted). Priority insertion first / plain insertion last (both add_sys branches translated); the de-duplicated walk lists each folded name once keeping the first member\'s entry, the dict-overwrite shape is refuted. '
          'Composition (c19_chain_walk_lookup_closed, c19_chain_walk_complete, c19_chain_walk_every_entry_spec, c19_chain_walk_lists_spec, c19_chain_iter_lists_spec): for members with empty or clean prefixes and an empty or clean folder, every (path, File) the de-duplicated walk lists is the specification\'s answer for path (it looks up in every form and reads the listed bytes), and every clean name the specification serves inside the folder is listed with that File; iter(chain) lists every clean name served. All of these are re-instantiated at the generated configuration on every run. '
          'Round 4 - c19_property: for every configuration (three backend records, VPK content expressions and reader, the directory backend\'s operations and listed-name shape, add_sys guard and branch actions, _file_exists mode, de-duplication mode / key / relative-name mode) that passes the named recognisers, the three sentences of the property hold (backends_agree, walks_exact, chains_honour_priority); today\'s generated configuration passes (obligation property_hypotheses_hold_for_the_generated_configuration, instance theorem today_c19_property). add_sys: c19_chain_history_order / _mounts_all / _spec - after ANY sequence of add_sys calls (method always inserts, first for priority, last otherwise) the chain is the priority members latest first then the others in order, and every lookup form is the specification over that order; a guard `if (sys, prefix) in self.systems: return` is translated (chain_add_guard) and refuted (second archive under the same label dropped, priority re-add ignored). RawFileSystem.walk_folder: how the listed name is computed is translated (raw_walk_relmode); relpath of the joined file name lists stored names (c19_raw_walk_lists_stored_names), relpath of the directory joined with the file name lists root files as "./x" (refuted, also inside a chain). Walk of chains: c19_chain_walk_from_member_interface proves the composition from what the chain needs from a member (lists_sound / lists_complete); folding backends and the directory backend (on folders exact for it - premise shown necessary) satisfy it, so c19_chain_walk_with_directory_members covers chains that contain RawFileSystem; c19_chain_walk_any_spelling / _any_member / _any_member_any_spelling extend it to prefixes and folders spelt with redundant separators and "." segments in either slash, for folding and directory members (spells; c19_spellings_one_normal_form). c19_case_duplicate_winner_needs_order: no reader of a container that is the same for both insertion orders serves "the file stored last" - why the known finding cannot be repaired inside VPKFileSystem. '
-         'The generated model is compared with the real Virtual/Zip/VPK/Raw backends (lookups in all spellings incl. open_str, VPKs written in 7 data placements, walks of normalised and un-normalised folders) and with chains ([], in, open_bin, open_str, walk_folder, walk_folder_repeat); a reference oracle written from the property checks every public form on the four real backends and on chains of up to 4 members in all orderings, file contents for 5 VPK placement classes with sizes around the preload limits (1024, 65535), plus non-ASCII case folding for the in-memory and zip backends.',
-    note='Trusted: Coq kernel + vm_compute, translate/c19_walk.py (its canonicalisation rewrites are meant to be equivalences of Python programs; on every run the rewritten filesys.py is compiled, executed and compared with the real classes on every lookup form, walks and chains - obligations translate:canonical-form-runs / -is-equivalent), zipfile, the VPK writer of vpk.py (where the bytes are put; the reader is translated; VPK.fileinfos only through a shape check), which numbered archive file is opened (C13), the OS directory semantics (RawFileSystem: exact names via os.path.isfile/open/os.walk after abspath; RootEscapeError belongs to C18). Model restrictions: ASCII case folding only in the model (non-ASCII casefold is searched on the in-memory and zip backends; VPK names are ASCII); stored names are clean relative "/" paths; ".." segments are modelled (full posixpath.normpath) and compared by correspondence but the general noise theorem covers only empty and "." segments; the walk/composition theorems cover prefixes and folders in any spelling of an empty or clean path without ".." (redundant separators, "." segments, either slash; ".." in a prefix or folder: correspondence and oracle), directory members need a cleanly spelt folder that is exact for them - the chain lookup theorem has no premise on prefixes; absolute paths are outside the statement; reading a slice of the wrong home is modelled as returning nothing (such readers are never recognised as whole). Which of two stored names differing only in case wins depends on container order (c19_lookup_order_matters_for_case_duplicates); VPK regroups files, see known finding case-duplicate-winner-vpk-differs. Observations (not violations): RawFileSystem.open_bin of a directory raises IsADirectoryError where the others raise FileNotFoundError; File.path of a lookup differs per backend.',
+         'The generated model is compared with the real Virtual/Zip/VPK/Raw backends (lookups in all spellings incl. open_str, VPKs written in 7 data placements, walks of normalised and un-normalised folders) and with chains ([], in, open_bin, open_str, walk_folder, walk_folder_repeat); a reference oracle written from the property checks every public form on the four real backends and on chains of up to 4 members in all orderings, file contents for 5 VPK placement classes with sizes around the preload limits (1024, 65535), plus non-ASCII case folding for the in-memory and zip backends.'
+         ' Round 5 - programs instead of single calls: the census of stores is a generated object (one fs_census per class: stores of the walk methods, stores of the lookup methods; helpers of filesys.py; the reading side of vpk.py) and every group must be empty (obligations <class>_walks_keep_no_state / _lookups_keep_no_state, filesys_helpers_keep_no_state, vpk_reader_keeps_no_state). c19_walk_history_irrelevant: for code that stores nothing (or stores a folder listing only after its scan has finished), after ANY history of walks - complete, or given up after any number of items by break / any() / next(iter(fs)) / an exception / close() - a complete walk lists the complete listing, and every walk hands its consumer a prefix of it; the memo registered before the scan and filled while yielding (seeded fault c19_7) is refuted (c19_walk_memo_while_yielding_refuted), and a store with a yield still to come puts code into that class (c19_census_decides_discipline). c19_chain_lookup_history: lookups that store nothing answer chain_get over the members mounted after any history of lookups, add_sys calls and direct edits of the public list systems; remembered member positions (c19_8) are refuted for systems.pop(0) and shown to need the direct edit (c19_chain_position_memo_refuted, _add_sys_resets). c19_property_over_histories: source_ok cfg -> state_ok census -> the three sentences for every call and histories_irrelevant; instantiated at both generated objects on every run.',
+    note='Trusted: Coq kernel + vm_compute, translate/c19_walk.py (its canonicalisation rewrites are meant to be equivalences of Python programs; on every run the rewritten filesys.py is compiled, executed and compared with the real classes on every lookup form, walks and chains - obligations translate:canonical-form-runs / -is-equivalent), zipfile, the VPK writer of vpk.py (where the bytes are put; the reader is translated; VPK.fileinfos only through a shape check), which numbered archive file is opened (C13), the OS directory semantics (RawFileSystem: exact names via os.path.isfile/open/os.walk after abspath; RootEscapeError belongs to C18). Model restrictions: ASCII case folding only in the model (non-ASCII casefold is searched on the in-memory and zip backends; VPK names are ASCII); stored names are clean relative "/" paths; ".." segments are modelled (full posixpath.normpath) and compared by correspondence but the general noise theorem covers only empty and "." segments; the walk/composition theorems cover prefixes and folders in any spelling of an empty or clean path without ".." (redundant separators, "." segments, either slash; ".." in a prefix or folder: correspondence and oracle), directory members need a cleanly spelt folder that is exact for them - the chain lookup theorem has no premise on prefixes; absolute paths are outside the statement; reading a slice of the wrong home is modelled as returning nothing (such readers are never recognised as whole). Which of two stored names differing only in case wins depends on container order (c19_lookup_order_matters_for_case_duplicates); VPK regroups files, see known finding case-duplicate-winner-vpk-differs. Round 5: the census is syntactic - it trusts that Python locals and generator frames die with the call, that the functions of os / zipfile / io the methods call keep no state of their own that matters (zipfile.ZipFile.open shares a file position under its own lock), and that callers do not mutate the ZipInfo / FileInfo objects handed out; aliases are followed through assignments, loops, with, get/setdefault/pop/values/items, not through calls of other functions; the reading of the census as a walk discipline (SM/FsState.v) models sequential histories (each generator dropped before the next walk starts; interleaved walks are searched); a listing stored after the scan has finished is proved harmless but alarms (the census cannot check what is stored). Observations (not violations): RawFileSystem.open_bin of a directory raises IsADirectoryError where the others raise FileNotFoundError; File.path of a lookup differs per backend.',
 )
 
 IMPORTS = ['Coq.Lists.List', 'Coq.NArith.NArith', 'Coq.Bool.Bool', 'SV.SM.FsChain', 'SV.SM.FsChainForms', 'SV.SM.FsChainRead', 'SV.SM.FsChainAdd', 'SV.SM.FsChainNoise', 'SV.SM.FsChainProperty', 'SV.Gen.FsWalk_gen']
@@ -152,6 +153,26 @@ Qed.
 Print Assumptions today_chain_walk_any_spelling.
 '''
 
+STATE_IMPORTS = ['Coq.Lists.List', 'Coq.Bool.Bool', 'SV.SM.FsChain', 'SV.SM.FsState', 'SV.Gen.FsState_gen']
+TODAY_CENSUS = ('{| sc_chain := chain_census; sc_virtual := virtual_census; sc_raw := raw_census; sc_zip := zip_census; '
+                'sc_vpk := vpk_census; sc_helpers := helpers_census; sc_vpk_reader := vpk_reader_census |}')
+STATE_SHORTS = ('chain', 'virtual', 'raw', 'zip', 'vpk')
+# needs only Gen/FsState_gen.v: it is checked also when the shape translator (FsWalk_gen) fails closed
+INSTANCE_THEOREM_STATE = '''Import ListNotations.
+Definition today_census : state_census := TODAY_CENSUS.
+(* on today's source histories of walks (complete or given up), lookups, add_sys calls and edits of `systems` do not
+   change what a call answers *)
+Theorem today_histories_irrelevant : histories_irrelevant today_census.
+Proof. apply c19_property_over_histories with (s := witness_cfg); [exact (proj1 c19_property_over_histories_hypotheses_satisfiable)|vm_compute; reflexivity]. Qed.
+Print Assumptions today_histories_irrelevant.
+Theorem today_vpk_walk_history : forall b fs h folder,
+  walk_after file (walk b fs) (fun s => s) (discipline_of (cs_walk vpk_census)) h folder = walk b fs folder.
+Proof. intros. apply c19_backend_walk_history. vm_compute. reflexivity. Qed.
+Theorem today_chain_lookup_history : forall ms h q,
+  chain_lookup_after (lookup_discipline_of (cs_lookup chain_census)) ms h q = chain_get (members_after ms h) q.
+Proof. intros. apply c19_chain_lookup_history. vm_compute. reflexivity. Qed.
+'''.replace('TODAY_CENSUS', TODAY_CENSUS)
+
 INSTANCE_THEOREM_FORMS = '''Import ListNotations.
 Definition gen_xmember (m : xmember) : Prop :=
   exists b fs p, In b [virtual_cfg; zip_cfg; vpk_cfg] /\\ m = xmember_of b fs p /\\ clean_fs fs = true.
@@ -260,6 +281,12 @@ Theorem today_c19_property : property_holds today_cfg.
 Proof. apply c19_property. vm_compute. reflexivity. Qed.
 Print Assumptions today_c19_property.
 '''.replace('TODAY_CFG', TODAY_CFG)
+# ... and over programs (needs both generated files)
+INSTANCE_THEOREM_FORMS_STATE = '''
+Theorem today_c19_property_over_histories : property_holds today_cfg /\\ histories_irrelevant TODAY_CENSUS.
+Proof. apply c19_property_over_histories; vm_compute; reflexivity. Qed.
+Print Assumptions today_c19_property_over_histories.
+'''.replace('TODAY_CENSUS', TODAY_CENSUS)
 
 BACKENDS = ['virtual', 'zip', 'vpk', 'raw']
 FOLDERS = ['mat', 'materials', 'Materials', 'sub', 'Sub', 'a', 'A', 'deep', 'models', '.git', 'maps']
@@ -802,6 +829,152 @@ def corr_chain(ck: Ck, root: str, pool):
 
 
 # ------------------------------------------------------------------------------------------------ oracle: single backends
+# ------------------------------------------------------------------------------------------------ oracle: histories of walks
+# A walk is a generator: the consumer may stop after k items (break, any(), next(iter(fs))), an exception may be raised in
+# the loop body or thrown into the generator, two walks may be interleaved.  Nothing of that may change what a later
+# complete walk of the folder (any spelling, '' and iteration included) lists.
+ABANDON_MODES = ('take0', 'take1', 'take2', 'all-but-one', 'any', 'body-raises', 'throw', 'close', 'interleaved')
+
+
+class _ConsumerFailed(Exception):
+    pass
+
+
+def abandon_walk(make_gen, mode: str, n_expected: int = 0, meanwhile=()):
+    """Start the walk make_gen() and give it up the way `mode` says.  Returns None, or for 'interleaved' the pair
+    (items of a second walk started and exhausted while the first was suspended, all items of the first walk)."""
+    if mode in ('take0', 'take1', 'take2', 'all-but-one'):
+        g = make_gen()
+        for _ in range(max(n_expected - 1, 0) if mode == 'all-but-one' else int(mode[-1])):
+            next(g, None)
+        del g
+    elif mode == 'any':
+        any(True for _ in make_gen())
+    elif mode == 'body-raises':
+        try:
+            for _f in make_gen():
+                raise _ConsumerFailed()
+        except _ConsumerFailed:
+            pass
+    elif mode == 'throw':
+        g = make_gen()
+        next(g, None)
+        if hasattr(g, 'throw'):       # the interface promises an iterator, not a generator: a plain iterator is just dropped
+            try:
+                g.throw(_ConsumerFailed())
+            except (_ConsumerFailed, StopIteration):
+                pass
+    elif mode == 'close':
+        g = make_gen()
+        next(g, None)
+        next(g, None)
+        if hasattr(g, 'close'):
+            g.close()
+    elif mode == 'interleaved':
+        g = make_gen()
+        first = [f.path for f in itertools.islice(g, 1)]
+        second = [f.path for f in make_gen()]
+        for other in meanwhile:       # walks of other folders / other objects while the first walk is suspended
+            for _f in other():
+                pass
+        return second, first + [f.path for f in g]
+    else:
+        raise ValueError(mode)
+    return None
+
+
+def backend_walk_expect(name: str, files, sm, folder: str, fcls: str):
+    """(expected sorted listing, how to normalise a listed path) of one backend for one folder argument."""
+    if name == 'raw':
+        fe = os.path.normpath(folder.replace('\\', '/')) if fcls.startswith('unnormalised') else folder.replace('\\', '/').rstrip('/')
+        fe = '' if fe == '.' else fe
+        return sorted(nm for nm, _ in files if fe == '' or nm.startswith(fe + '/')), (lambda p: p)
+    return sorted(k for k in sm if spec_inside(folder, k)), fold
+
+
+def walk_history_case(fs, name: str, files, folder: str, fcls: str, mode: str, again: str, use_iter: bool) -> list[tuple[str, str, dict]]:
+    """One history on one backend object: a walk of `folder` is given up the way `mode` says, then `again` (the same
+    folder, possibly spelt differently) is walked completely - and, for the root, the object is iterated."""
+    out: list[tuple[str, str, dict]] = []
+    sm = spec_map(files)
+    exp, norm = backend_walk_expect(name, files, sm, folder, fcls)
+    make = (lambda: iter(fs)) if use_iter else (lambda: fs.walk_folder(folder))
+    rep = {'op': 'walk-history', 'backend': name, 'files': [(a, b.decode()) for a, b in files], 'folder': folder, 'folder_class': fcls,
+           'mode': mode, 'then_walk': again, 'first_walk_is_iter': use_iter, 'expected': exp}
+    try:
+        inter = abandon_walk(make, mode, len(exp), (lambda: fs.walk_folder(again), lambda: fs.walk_folder(''), lambda: fs.walk_folder('nonexistent')))
+    except Exception as e:      # noqa: BLE001 - whatever comes out of an abandoned walk other than what was thrown in
+        return [(f'walk-{name}-abandoned-walk-raises', f'{name}: giving up a walk of {folder!r} ({mode}) raised {type(e).__name__}: {e}', rep)]
+    if inter is not None:
+        for label, listing in (('started while another walk was suspended', inter[0]), ('suspended while another walk ran', inter[1])):
+            if sorted(norm(p) for p in listing) != exp:
+                out.append((f'walk-{name}-interleaved-walks-interfere', f'{name}.walk_folder({folder!r}) {label} listed {sorted(listing)}, '
+                            f'expected {exp}', rep))
+    listings = [(f'walk_folder({again!r})', impl_walk(fs, again))]
+    if folder == '':
+        try:
+            listings.append(('iter(fs)', [f.path for f in fs]))
+        except Exception as e:      # noqa: BLE001
+            listings.append(('iter(fs)', f'{type(e).__name__}: {e}'))
+    for what, w in listings:
+        if isinstance(w, str) or sorted(norm(p) for p in w) != exp:
+            out.append((f'walk-{name}-wrong-after-abandoned-walk', f'{name}: after a walk of {folder!r} was given up ({mode}), the complete '
+                        f'{what} listed {w if isinstance(w, str) else sorted(w)}, expected {exp}', rep))
+            break
+    return out
+
+
+def check_walk_histories(bt: 'Built', files, rng: random.Random, stats=None, hist=None) -> list[tuple[str, str, dict]]:
+    """Abandoned walks followed by complete ones, on backends nobody has walked yet."""
+    out: list[tuple[str, str, dict]] = []
+    sm = spec_map(files)
+    dirs = sorted({'/'.join(nm.split('/')[:i]) for nm, _ in files for i in range(1, len(nm.split('/')))})
+    # (folder as first walked, class, the same folder spelt differently for the walk that follows)
+    plan: list[tuple[str, str, str]] = [('', 'root', '')]
+    for d in dirs[:3]:
+        plan.append((d, 'exact', d + '/'))
+    plan.append(('', 'root', '.'))
+    modes = list(ABANDON_MODES)
+    rng.shuffle(modes)
+    for name in BACKENDS:
+        fs = bt.fs[name]
+        for i, (folder, fcls, again) in enumerate(plan):
+            mode = modes[(i + BACKENDS.index(name)) % len(modes)]
+            if name != 'raw' and again and again != '.' and rng.random() < 0.5:
+                again = _recase(rng, again).replace('/', '\\')
+            use_iter = folder == '' and rng.random() < 0.5
+            out += walk_history_case(fs, name, files, folder, fcls, mode, again, use_iter)
+            if hist is not None:
+                hist('walk_history_mode', mode)
+            if stats is not None:
+                stats('walk_history_observations', 1)
+        # File objects handed out by a complete walk stay valid: they are opened after further walks (one given up) and
+        # a failed lookup have happened on the object
+        hrep = {'op': 'backends', 'files': [(a, b.decode()) for a, b in files], 'seed': 0, 'history': 'handles of a complete walk opened after later calls'}
+        try:
+            handles = list(fs.walk_folder(''))
+            abandon_walk(lambda: fs.walk_folder(''), 'take1')
+            impl_lookup(fs, 'nonexistent.txt')
+            for h in handles:
+                with h.open_bin() as fh:
+                    got = fh.read()
+                want = {dict(files).get(h.path)} if name == 'raw' else {x for _, x in sm.get(fold(h.path), [])}
+                if got not in want:
+                    out.append((f'walk-{name}-handle-stale', f'{name}: the File {h.path!r} listed by a walk, opened after later calls, reads {got!r}', hrep))
+            if stats is not None:
+                stats('walk_history_observations', len(handles))
+        except Exception as e:      # noqa: BLE001
+            out.append((f'walk-{name}-handle-exception', f'{name}: opening the Files of a walk after later calls raised {type(e).__name__}: {e}', hrep))
+        # lookups are untouched by the walks that went before
+        for nm, b in files:
+            ex, got, _op = impl_lookup(fs, nm)
+            okb = {b} if name == 'raw' else {x for _, x in sm[fold(nm)]}
+            if ex is not True or got not in okb:
+                out.append((f'lookup-{name}-wrong-after-abandoned-walk', f'{name}: after abandoned walks {nm!r}: exists={ex!r} get={got!r}',
+                            {'op': 'backends', 'files': [(a, b.decode()) for a, b in files], 'seed': 0, 'query': nm}))
+    return out
+
+
 CORPUS_SETS = [
     [('materials/Brick/wall.vmt', b'1'), ('mat/x.txt', b'2'), ('materials/a.vmt', b'3'), ('top.txt', b'4'), ('.dot', b'5'),
      ('sub/deep/er/f.txt', b'6'), ('noext', b'7'), ('sub/noext2', b'8')],
@@ -811,11 +984,22 @@ CORPUS_SETS = [
 ]
 
 
-def check_backends(root: str, files, rng: random.Random, stats=None) -> list[tuple[str, str, dict]]:
+def check_backends(root: str, files, rng: random.Random, stats=None, hist=None) -> list[tuple[str, str, dict]]:
     """All violations of the single-backend part of the property on one file set: (key, what, replay)."""
     out: list[tuple[str, str, dict]] = []
     bt = Built(root, files)
     try:
+        # histories of walks: on the very objects the oracles below use (they then run on objects with a past), or on a
+        # second set of backends (the oracles below then see objects nobody has touched)
+        hrng = random.Random(rng.randrange(1 << 30))
+        if hrng.random() < 0.5:
+            out += check_walk_histories(bt, files, hrng, stats, hist)
+        else:
+            bth = Built(root, files)
+            try:
+                out += check_walk_histories(bth, files, hrng, stats, hist)
+            finally:
+                bth.close()
         sm = spec_map(files)
         has_dups = any(len(v) > 1 for v in sm.values())
         fj = [(a, b.decode()) for a, b in files]
@@ -864,6 +1048,17 @@ def check_backends(root: str, files, rng: random.Random, stats=None) -> list[tup
                 if ex is not False or got is not None or op is not None:
                     out.append((f'lookup-{name}-phantom', f'{name}: {q!r} is not a stored file but exists={ex!r} get={got!r}',
                                 {'op': 'lookup', 'backend': name, 'files': fj, 'query': q, 'expected_bytes': None}))
+                    continue
+                # error paths: every form has now failed once for q (and fails once more here); what a failed call
+                # leaves behind must not make the name exist afterwards (the walks below must not list it either)
+                forms = read_forms(fs, q, 'utf8')
+                again = impl_lookup(fs, q)
+                if stats is not None:
+                    stats('lookup_observations', 10)
+                if forms_problems(forms, None) or again != (False, None, None):
+                    out.append((f'lookup-{name}-phantom-after-failed-lookup', f'{name}: {q!r} is not a stored file; after lookups of it failed: '
+                                f'{forms!r}, then exists/get/open = {again!r}',
+                                {'op': 'lookup', 'backend': name, 'files': fj, 'query': q, 'expected_bytes': None, 'history': 'the same lookup repeated after it failed in every form'}))
         # raw: exact-case names, either slash kind, redundant separators / dot segments
         rawq = [(nm, 'exact', nm) for nm, _ in files]
         rawq += [(nm.replace('/', '\\'), 'slash-variant', nm) for nm, _ in files if '/' in nm]
@@ -1339,12 +1534,15 @@ def check_content(root: str, sized, params: dict, stats=None, hist=None) -> list
 
 
 # ------------------------------------------------------------------------------------------------ oracle: chains
-def check_chain(root: str, sets, members, rng: random.Random, stats=None) -> list[tuple[str, str, dict]]:
+def check_chain(root: str, sets, members, rng: random.Random, stats=None, seed=None, hist=None) -> list[tuple[str, str, dict]]:
     """members: [(backend kind, set index, prefix, priority)]. Reference computed from the file sets only."""
     from srctools.filesys import FileSystemChain
     out: list[tuple[str, str, dict]] = []
     builts = [Built(root, s) for s in sets]
     rep = {'op': 'chain', 'sets': [[(a, b.decode()) for a, b in s] for s in sets], 'members': [list(m) for m in members]}
+    if seed is not None:
+        rng = random.Random(seed)
+        rep['seed'] = seed
     try:
         ch = FileSystemChain()
         order: list[tuple] = []
@@ -1356,7 +1554,10 @@ def check_chain(root: str, sets, members, rng: random.Random, stats=None) -> lis
                     read_forms(ch, nm, 'utf8')
                     read_forms(ch, nm.rsplit('/', 1)[-1], 'utf8')
                 try:
-                    [fl.path for fl in ch.walk_folder('')]
+                    if rng.random() < 0.5:
+                        [fl.path for fl in ch.walk_folder('')]
+                    else:
+                        abandon_walk(lambda: ch.walk_folder(''), rng.choice(['take1', 'take2', 'any', 'close']))
                 except Exception:      # noqa: BLE001 - judged below on the finished chain
                     pass
             ch.add_sys(builts[j].fs[kind], pfx, priority=prio)
@@ -1434,7 +1635,7 @@ def check_chain(root: str, sets, members, rng: random.Random, stats=None) -> lis
                     elif not p and c in ('exact', 'case-variant'):
                         folders.append((f, c))
             folders = list(dict.fromkeys(folders))[:6]
-        for folder, fcls in folders:
+        def chain_exp(folder: str, order) -> dict:
             exp: dict[str, set] = {}
             for kind, j, pfx in order:
                 p = _pfx(pfx)
@@ -1458,6 +1659,39 @@ def check_chain(root: str, sets, members, rng: random.Random, stats=None) -> lis
                             continue
                         content = {b for _, b in sms[j][fk]}
                     exp.setdefault(relk, content)
+            return exp
+
+        # histories of walks: a walk of the chain (lazy over its members' walks) is given up, then the folder is walked completely
+        if len(ch.systems) == len(order):
+            hmodes = list(ABANDON_MODES)
+            rng.shuffle(hmodes)
+            for hi, (folder, _fcls) in enumerate(folders[:2] + [('', 'root')]):
+                mode = hmodes[hi]
+                which = rng.choice(['walk_folder', 'walk_folder_repeat', 'iter'] if folder == '' else ['walk_folder', 'walk_folder_repeat'])
+                make = {'walk_folder': lambda: ch.walk_folder(folder), 'walk_folder_repeat': lambda: ch.walk_folder_repeat(folder),
+                        'iter': lambda: iter(ch)}[which]
+                hrep = dict(rep, folder=folder, history=[f'chain.{which}({folder!r}) given up ({mode})', f'complete chain.walk_folder({folder!r})'])
+                exp = chain_exp(folder, order)
+                try:
+                    inter = abandon_walk(make, mode, len(exp), (lambda: ch.walk_folder(''), lambda: ch.walk_folder('nonexistent')))
+                    after = [fl.path for fl in ch.walk_folder(folder)]
+                except Exception as e:      # noqa: BLE001
+                    out.append(('chain-walk-abandoned-walk-raises', f'chain: giving up {which}({folder!r}) ({mode}) and walking again raised {type(e).__name__}: {e}', hrep))
+                    continue
+                if hist is not None:
+                    hist('chain_walk_history_mode', mode)
+                if stats is not None:
+                    stats('chain_walk_history_observations', 1)
+                if inter is not None and which != 'walk_folder_repeat':
+                    for label, listing in (('started while another walk was suspended', inter[0]), ('suspended while another walk ran', inter[1])):
+                        if sorted(fold(p) for p in listing) != sorted(exp):
+                            out.append(('chain-walk-interleaved-walks-interfere', f'chain.{which}({folder!r}) {label} listed {sorted(listing)}, expected {sorted(exp)}', hrep))
+                if sorted(fold(p) for p in after) != sorted(exp):
+                    out.append(('chain-walk-wrong-after-abandoned-walk', f'chain: after {which}({folder!r}) was given up ({mode}), the complete walk listed '
+                                f'{sorted(after)}, expected {sorted(exp)}', hrep))
+
+        for folder, fcls in folders:
+            exp = chain_exp(folder, order)
             try:
                 listed = []
                 for fl in ch.walk_folder(folder):
@@ -1528,6 +1762,58 @@ def check_chain(root: str, sets, members, rng: random.Random, stats=None) -> lis
                         if again != b:
                             out.append(('chain-walk-listed-name-not-found', f'chain: listed {p!r} with content {b!r} looks up to {again!r}',
                                         dict(rep, folder=folder)))
+        # the public list `systems` is edited directly after all those lookups and walks (packlist removes a member it
+        # mounted with systems.pop(0)): every answer is that of the members now mounted, in their order
+        if len(ch.systems) == len(order) and len(order) > 1:
+            edits = ['pop-first', 'reverse', 'rotate', 'pop-last', 'swap-first-two', 'insert-copy-of-last-first']
+            rng.shuffle(edits)
+            done_edits: list[str] = []
+            for edit in edits[:3]:
+                if len(order) < 2:
+                    break
+                for lst in (ch.systems, order):
+                    if edit == 'pop-first':
+                        lst.pop(0)
+                    elif edit == 'reverse':
+                        lst.reverse()
+                    elif edit == 'rotate':
+                        lst.append(lst.pop(0))
+                    elif edit == 'pop-last':
+                        del lst[-1]
+                    elif edit == 'swap-first-two':
+                        lst[0], lst[1] = lst[1], lst[0]
+                    else:
+                        lst.insert(0, lst[-1])
+                done_edits.append(edit)
+                if hist is not None:
+                    hist('chain_systems_edit', edit)
+                erep = dict(rep, systems_edits=list(done_edits))
+                for q in allq:
+                    want = None
+                    for kind, j, pfx in order:
+                        want = member_has(kind, j, pfx, q)
+                        if want is not None:
+                            break
+                    forms = read_forms(ch, q, 'utf8')
+                    if stats is not None:
+                        stats('chain_get_observations', len(forms))
+                    bad = forms_problems(forms, want)
+                    if bad:
+                        out.append(('chain-stale-after-systems-edit-' + bad[0][0], f'chain after systems edits {done_edits}: {bad[0][0]}({q!r}) gave {forms[bad[0][0]]!r}, '
+                                    f'the first member now holding the name has {want!r}', dict(erep, query=q)))
+                        break
+                exp = chain_exp('', order)
+                try:
+                    listed = []
+                    for fl in ch.walk_folder(''):
+                        with fl.open_bin() as fh:
+                            listed.append((fold(fl.path), fh.read()))
+                except Exception as e:      # noqa: BLE001
+                    out.append(('chain-walk-exception', f'chain.walk_folder(\'\') after systems edits {done_edits} raised {type(e).__name__}: {e}', erep))
+                    continue
+                if sorted(k for k, _ in listed) != sorted(exp) or any(b not in exp[k] for k, b in listed):
+                    out.append(('chain-stale-after-systems-edit-walk', f'chain after systems edits {done_edits}: walk_folder(\'\') listed {sorted(listed)}, '
+                                f'expected {sorted((k, sorted(v)) for k, v in exp.items())}', erep))
     finally:
         for b in builts:
             b.close()
@@ -1643,7 +1929,7 @@ def search(ck: Ck, root: str) -> None:
         if hangs[0] >= MAX_HANGS:
             break
         brep = {'op': 'backends', 'files': [(a, b.decode()) for a, b in files], 'seed': seed}
-        v = guarded('backends', lambda: check_backends(root, files, random.Random(seed), stats), brep)
+        v = guarded('backends', lambda: check_backends(root, files, random.Random(seed), stats, ck.hist), brep)
         for key in {k for k, _, _ in v}:
             if unshrinkable(key):
                 note([x for x in v if x[0] == key])
@@ -1725,8 +2011,11 @@ def search(ck: Ck, root: str) -> None:
             seed = ck.rng.randrange(1 << 30)
             if hangs[0] >= MAX_HANGS:
                 break
-            note(guarded('chain', lambda: check_chain(root, sets, list(perm), random.Random(seed), stats),
-                         {'op': 'chain', 'sets': [[(a, b.decode()) for a, b in s] for s in sets], 'members': [list(m) for m in perm]}))
+            note(guarded('chain', lambda: check_chain(root, sets, list(perm), None, stats, seed, ck.hist),
+                         {'op': 'chain', 'sets': [[(a, b.decode()) for a, b in s] for s in sets], 'members': [list(m) for m in perm], 'seed': seed}))
+    ck.sample({'walk_history': {'ways_of_giving_a_walk_up': list(ABANDON_MODES), 'example': ['vpk.walk_folder(\'materials\') given up after 1 item (take1)',
+                                'then the complete vpk.walk_folder(\'MATERIALS\\\\\') and, for the root, iter(vpk)']},
+               'chain_systems_edits': ['pop-first', 'reverse', 'rotate', 'pop-last', 'swap-first-two', 'insert-copy-of-last-first']})
     ck.sample({'chain_members(kind,set,prefix,priority)': [list(x) for x in CORPUS_CHAINS[2][1]],
                'sets': [[nm for nm, _ in s] for s in CORPUS_CHAINS[2][0]]})
     for key, (what, rep) in sorted(found.items()):
@@ -1750,6 +2039,12 @@ def run(ck: Ck) -> None:
                'placement (preload only, directory tail, numbered archive, single file, no limit) with file sizes 0-100 and around 1024 / 65535; '
                'chains also over archives mounted under one label (distinct objects that compare equal), a mounted member re-added with priority, and '
                'lookups / walks between the add_sys calls. '
+               'Histories (round 5): on every backend of every file set, for the root and up to three folders, a walk (or iter) is given up in one of '
+               '9 ways (0, 1, 2 or all-but-one items taken, any(), exception in the loop body, throw(), close(), a second walk plus walks of other '
+               'folders while the first is suspended), then the folder is walked completely under another spelling and the object is iterated; every '
+               'absent name is looked up again in every form after all forms failed once; the same on chains (walk_folder, walk_folder_repeat, iter), '
+               'where the walk between add_sys calls is given up half of the time; after all lookups and walks three random direct edits of '
+               'chain.systems (pop(0), reverse, rotate, del [-1], swap, insert a copy) each followed by every lookup form of every name and the root walk. '
                'Distinct = different name list (sets) or member tuple (chains); non-trivial = at least two files / two members.')
     ck.trusted.append('hand-written model SM/FsChain.v interpreted over Gen/FsWalk_gen.v (tied by correspondence on every run)')
     ck.trusted.append('zipfile, srctools.vpk.VPK writer/reader and the OS directory tree used to build the real backends; posixpath')
@@ -1758,6 +2053,9 @@ def run(ck: Ck) -> None:
                       'locals and module constants, loop/comprehension, if-continue, try/else, for/else, keyword arguments, SSA renaming) are '
                       'equivalences of Python programs; the rewritten module is executed and compared with the real one on every run '
                       '(canonical_validation), the rules themselves are not proved')
+    ck.trusted.append('translate/c19_state.py: the census of stores is syntactic (assignments, mutating method calls, setattr, global/nonlocal, memoising '
+                      'decorators; aliases through assignments / loops / with / get / setdefault); Python locals and generator frames die with the call; '
+                      'os, zipfile and io keep no state that matters between the calls')
     ck.trusted.append('vpk.py FileInfo.read() is translated (slice displacements, homes, tests); FileInfo.write (where the bytes are put) and the '
                       'name of the numbered archive that is opened are trusted here (property C13)')
     ck.assumptions.append('case folding is modelled for ASCII only (non-ASCII casefold: oracle on the in-memory and zip backends); stored names are clean relative paths using "/"')
@@ -1765,9 +2063,32 @@ def run(ck: Ck) -> None:
     ck.assumptions.append('walk composition theorems: member prefixes and the folder argument spell an empty or clean relative path (redundant separators and "." segments allowed, either slash, any case; no ".."); for directory members the folder is cleanly spelt and exact (every stored file below it up to case lies below it exactly)')
     root = str(ck.scratch)
     _ta = time.time()
+    ok_s = ck.translate('FsState_gen', c19_state.translate)
     ok_t = ck.translate('FsWalk_gen', c19_walk.translate)
-    built = ok_t and ck.build(['Props/C19.vo', 'Gen/FsWalk_gen.vo'])
+    # the census of stores is generated, built and judged also when the shape translator fails closed
+    built_any = (ok_t or ok_s) and ck.build(['Props/C19.vo'] + (['Gen/FsWalk_gen.vo'] if ok_t else []) + (['Gen/FsState_gen.vo'] if ok_s else []))
+    built = bool(ok_t and built_any)
+    built_s = bool(ok_s and built_any)
     _tb = time.time()
+    failed_state: list[str] = []
+    fut_state = None
+    sobs: dict = {}
+    if built_s:
+        from concurrent.futures import ThreadPoolExecutor as _TPE
+        spool = _TPE(max_workers=1)
+        fut_state = spool.submit(ck.coq_scratch, ''.join(f'Require Import {i}.\n' for i in STATE_IMPORTS + ['SV.SM.FsStateProofs', 'SV.SM.FsChainProperty', 'SV.SM.FsChainPropertyProofs', 'SV.Props.C19'])
+                                 + INSTANCE_THEOREM_STATE, 'inst_state', 300)
+        sobs = {}
+        for short in STATE_SHORTS:
+            sobs[f'{short}_walks_keep_no_state'] = f'walk_keeps_no_state {short}_census'
+            sobs[f'{short}_lookups_keep_no_state'] = f'lookups_keep_no_state {short}_census'
+        sobs['filesys_helpers_keep_no_state'] = 'census_clean helpers_census'
+        sobs['vpk_reader_keeps_no_state'] = 'census_clean vpk_reader_census'
+        sobs['census_hypothesis_holds_for_the_generated_census'] = f'state_ok {TODAY_CENSUS}'
+        ck.extra['state_census_stores'] = ck.extra.get('translated', {}).get('FsState_gen', {}).get('stores', {})
+        if not built:
+            # the shape translator failed closed: the census is judged on its own
+            failed_state = [oname for oname, ok in ck.instance_obligations(STATE_IMPORTS, sobs, 'inst_state_obs').items() if not ok]
     if built:
         # the two instance theorems are checked by their own coqc processes while the main thread goes on
         from concurrent.futures import ThreadPoolExecutor
@@ -1775,8 +2096,9 @@ def run(ck: Ck) -> None:
         fut_thm = pool.submit(ck.theorems, 'Props/C19.v')      # Print Assumptions of every theorem (its obligations are moved to the front below)
         fut_compose = pool.submit(ck.coq_scratch, ''.join(f'Require Import {i}.\n' for i in IMPORTS + ['SV.SM.FsChainProofs', 'SV.SM.FsChainCompose', 'SV.SM.FsChainFormsProofs', 'SV.SM.FsChainWhole', 'SV.SM.FsChainAdd', 'SV.SM.FsChainWalkGen', 'SV.SM.FsChainNoise', 'SV.Props.C19'])
                                   + INSTANCE_THEOREM, 'inst_compose', 300)
-        fut_forms = pool.submit(ck.coq_scratch, ''.join(f'Require Import {i}.\n' for i in IMPORTS + ['SV.SM.FsChainProofs', 'SV.SM.FsChainCompose', 'SV.SM.FsChainFormsProofs', 'SV.SM.FsChainWhole', 'SV.SM.FsChainReadProofs', 'SV.SM.FsChainMixed', 'SV.SM.FsChainAdd', 'SV.SM.FsChainProperty', 'SV.Props.C19'])
-                                + INSTANCE_THEOREM_FORMS, 'inst_forms', 300)
+        fut_forms = pool.submit(ck.coq_scratch, ''.join(f'Require Import {i}.\n' for i in IMPORTS + ['SV.SM.FsChainProofs', 'SV.SM.FsChainCompose', 'SV.SM.FsChainFormsProofs', 'SV.SM.FsChainWhole', 'SV.SM.FsChainReadProofs', 'SV.SM.FsChainMixed', 'SV.SM.FsChainAdd', 'SV.SM.FsChainProperty', 'SV.Props.C19']
+                                                                                                         + (['SV.SM.FsState', 'SV.SM.FsStateProofs', 'SV.Gen.FsState_gen'] if built_s else []))
+                                + INSTANCE_THEOREM_FORMS + (INSTANCE_THEOREM_FORMS_STATE if built_s else ''), 'inst_forms', 300)
         _tc = time.time()
         obs = {}
         for short, cfg in (('virtual', 'virtual_cfg'), ('zip', 'zip_cfg'), ('vpk', 'vpk_cfg')):
@@ -1813,7 +2135,12 @@ def run(ck: Ck) -> None:
         obs['vpk_open_bin_reads_whole_file'] = 'cexpr_whole false vpk_open_bin_content'
         obs['vpk_open_str_reads_whole_file'] = 'cexpr_whole false vpk_open_str_content'
         obs['vpk_reader_returns_preload_and_exact_rest'] = 'rexpr_whole None false vpk_reader'
-        failed_inst = [oname for oname, ok in ck.instance_obligations(IMPORTS, obs).items() if not ok]
+        if built_s:
+            # one evaluation for the shape obligations and the census obligations
+            obs.update(sobs)
+        res_inst = ck.instance_obligations(IMPORTS + (STATE_IMPORTS[3:] if built_s else []), obs)
+        failed_inst = [oname for oname, ok in res_inst.items() if not ok and oname not in sobs]
+        failed_state = [oname for oname, ok in res_inst.items() if not ok and oname in sobs]
         _td = time.time()
         def collect_instance_theorems() -> None:
             # the composition theorem instantiated at the generated configuration (type-checks only if today's chain
@@ -1848,6 +2175,8 @@ def run(ck: Ck) -> None:
             ck.obligation('translate:canonical-form-is-equivalent', False, f'executing filesys.py / its canonical form did not finish ({e})')
             ck.tie_broken.append('canonical form of filesys.py: execution did not finish')
         ck.extra.setdefault('stage_seconds', {})['canonical_validation'] = round(_t.time() - t3, 1)
+    for oname in failed_state:
+        ck.tie_broken.append(f'instance obligation {oname} does not hold at the generated census')
     if built:
         # a decisive code shape is not the sound one: the *search* runs on the escalated budgets (the correspondence
         # cases were built above on the normal ones: they validate the model, they are not what finds the input)
@@ -1873,10 +2202,27 @@ def run(ck: Ck) -> None:
         pool.shutdown()
         ck.extra['stage_seconds']['theorems_wait'] = round(time.time() - _te, 1)
         ck.obligations.sort(key=lambda o: 0 if o['name'].startswith(('theorem:', 'assumptions:')) else 1)     # stable: fixed order
+    if fut_state is not None:
+        rc, out = fut_state.result()
+        spool.shutdown()
+        ck.obligation('instance-theorem:histories_irrelevant', rc == 0,
+                      'c19_property_over_histories (second conjunct), c19_backend_walk_history and c19_chain_lookup_history at the generated census of stores '
+                      '(chain_census, virtual_census, raw_census, zip_census, vpk_census, helpers_census, vpk_reader_census)' + ('' if rc == 0 else ': ' + out[-400:]))
     keys = {v['key'] for v in ck.violations}
 
     def any_key(*subs):
         return any(all(s in k for s in sub.split('&')) for k in keys for sub in subs)
+    # the census of stores: a method that keeps state shows as a history-dependent answer of that backend / of chains
+    for short in STATE_SHORTS:
+        pats = ('chain-',) if short == 'chain' else (f'walk-{short}-', f'lookup-{short}-', f'content-{short}', f'chain-walk-&{short}')
+        if any_key(*pats):
+            ck.explain(f'instance:{short}_walks_keep_no_state')
+            ck.explain(f'instance:{short}_lookups_keep_no_state')
+    if keys:
+        ck.explain('instance:filesys_helpers_keep_no_state')
+        ck.explain('instance:vpk_reader_keeps_no_state')
+        ck.explain('instance:census_hypothesis_holds_for_the_generated_census')
+        ck.explain('instance-theorem:histories_irrelevant')
     # failed instance obligations are explained by concrete violations of the matching class
     if any_key('walk-virtual-root-folder-incomplete'):
         ck.explain('instance:virtual_walk_root_is_not_dot')
@@ -1917,7 +2263,7 @@ def run(ck: Ck) -> None:
     terr = next((o['detail'] for o in ck.obligations if o['name'].startswith('translate:') and not o['ok']), '')
     for subs, pats in ((('FileSystemChain._file_exists', '__contains__'), ('chain-contains-', 'chain-file_exists-')),
                        (('FileSystemChain.open_bin', 'FileSystemChain.open_str'), ('chain-open_bin-', 'chain-open_str-', 'chain-file_open_str-')),
-                       (('_get_file:', '__getitem__'), ('chain-get-', 'chain-get_file-')),
+                       (('_get_file:', '__getitem__'), ('chain-get-', 'chain-get_file-', 'chain-stale-after-systems-edit')),
                        (('walk_folder_repeat', 'FileSystemChain.walk_folder', 'walk_folder:', '__iter__'), ('chain-walk-', 'chain-iter-')),
                        (('add_sys',), ('chain-get-not-first-match', 'chain-walk-', 'chain-contains-', 'chain-open_bin-', 'chain-mounted-')),
                        (('VPKFileSystem.open', 'content expression', 'content helper', 'FileInfo.read'), ('content-vpk',))):
@@ -1992,6 +2338,15 @@ def replay(data: dict) -> int:
                 if k == data.get('key'):
                     print('REPRODUCED', k, '-', what)
                     break
+        elif r.get('op') == 'walk-history':
+            files = [(a, b.encode()) for a, b in r['files']]
+            bt = Built(root, files)
+            try:
+                for k, what, _ in guarded('backends', lambda: walk_history_case(bt.fs[r['backend']], r['backend'], files, r['folder'], r['folder_class'],
+                                                                               r['mode'], r['then_walk'], r['first_walk_is_iter']), r):
+                    print('FOUND', k, '-', what)
+            finally:
+                bt.close()
         elif r.get('op') == 'backends':
             files = [(a, b.encode()) for a, b in r['files']]
             for k, what, _ in guarded('backends', lambda: check_backends(root, files, random.Random(r.get('seed', 0))), r):
@@ -2007,7 +2362,7 @@ def replay(data: dict) -> int:
         elif r.get('op') == 'chain':
             sets = [[(a, b.encode()) for a, b in s] for s in r['sets']]
             members = [tuple(m) for m in r['members']]
-            for k, what, _ in guarded('chain', lambda: check_chain(root, sets, members, random.Random(data.get('seed', 0))), r):
+            for k, what, _ in guarded('chain', lambda: check_chain(root, sets, members, None, None, r.get('seed', data.get('seed', 0))), r):
                 print('FOUND', k, '-', what)
         else:
             print(r)
